@@ -46,8 +46,33 @@ def alphabet(fam):
     if fam == 'ET':
         a += ['read_sensor:work_mode', 'read_sensor:battery_modules', 'read_setting:battery_modules',
               'dev:battery-off', 'dev:battery-on', 'dev:refuse-mppt', 'dev:refuse-meter-ext2', 'dev:refuse-battery']
-    a += ['dev:lose-next-request']
+    a += ['dev:lose-next-request', 'env:neighbour']
+    if fam != 'ES':
+        a += ['dev:reject-next:3', 'dev:reject-next:6']
     return a
+
+
+NEIGHBOUR = {'ET': dict(name='nb-ET-small', family='ET', tag='ETU', power=3000, refused=('eco_v2', 'peak_shaving'), battery_mode=0),
+             'DT': dict(name='nb-DT-1ph', family='DT', tag='DSN', power=3000, refused=(), battery_mode=0),
+             'ES': dict(name='nb-ES-v2', family='ES', tag='ESU', power=5000, refused=(), battery_mode=0, firmware=b'2222E')}
+
+
+def neighbour(r, cfg):
+    """Another inverter object of the same family but another model / firmware generation lives in the same process and
+    is used through the public API (own device model, own event loop): configure, poll, read settings, change mode."""
+    nb = NEIGHBOUR[cfg['family']]
+    if nb['tag'] == cfg['tag'] and nb.get('firmware') == cfg.get('firmware') and nb['power'] == cfg['power']:
+        nb = dict(nb, power=25000, tag='ETT') if cfg['family'] == 'ET' else dict(nb, tag='DTU') if cfg['family'] == 'DT' else dict(nb, firmware=b'1414E')
+    r2 = make_rig(nb, fill=lambda a: (a * 17 + 5) % 2000, keep_world=True)
+    i2 = r2.inv
+    r2.call(i2.read_device_info)
+    r2.call(i2.read_runtime_data)
+    r2.call(i2.read_settings_data)
+    if cfg['family'] != 'DT':
+        r2.call(i2.set_operation_mode, OM.ECO_CHARGE, 30, 40)
+        r2.call(i2.get_operation_mode)
+    r2.call(i2.set_grid_export_limit, 777)
+    r.neighbours = getattr(r, 'neighbours', 0) + 1
 
 
 def do(r, cfg, name):
@@ -81,7 +106,13 @@ def do(r, cfg, name):
         if sid == 'eco_mode_1':
             return r.call(inv.write_setting, sid, group_bytes(inv, v))
         return r.call(inv.write_setting, sid, int(v))
+    if name == 'env:neighbour':
+        return neighbour(r, cfg)
     if k == 'dev':
+        if arg.startswith('reject-next'):
+            if hasattr(dev, 'reject_at'):
+                dev.reject_at = {len(dev.log): int(arg.split(':')[1])}
+            return None
         if arg == 'lose-next-request':
             dev_log = dev.log
             if hasattr(dev, 'drop_at'):
@@ -121,7 +152,9 @@ def state_of(r):
     return h((tuple(sorted((k, v) for k, v in vars(inv).items() if k.startswith('_has'))), tuple(sorted(inv._settings)),
               len(inv.sensors()), tuple(sens), regs, blob, tuple(getattr(dev, 'refused', ())),
               getattr(inv._protocol, '_retry', 0), inv._consecutive_failures_count,
-              tuple(sorted(getattr(dev, 'drop_at', ())) and [1])))
+              tuple(sorted(getattr(dev, 'drop_at', ())) and [1]),
+              tuple(sorted((k - len(dev.log), v) for k, v in getattr(dev, 'reject_at', {}).items())),
+              min(getattr(r, 'neighbours', 0), 1)))
 
 
 def probes(r, cfg):
@@ -136,6 +169,8 @@ def probes(r, cfg):
             out.append(('C18', f'read-only/{what}', f'{what} transmitted {str(w[0])[:80]}'))
     if hasattr(dev, 'drop_at'):
         dev.drop_at = set()
+    if hasattr(dev, 'reject_at'):
+        dev.reject_at = {}
     # C15 + C18: runtime read
     l0 = len(dev.log)
     res = r.call(inv.read_runtime_data)
@@ -257,10 +292,10 @@ def build(cfg, hist):
 
 
 def _job(j):
-    cfg, depth, props = j
+    cfg, depth, props, first = j
     names = alphabet(cfg['family'])
     seen = set()
-    frontier = collections.deque([[]])
+    frontier = collections.deque([[first] if first else []])
     vio = {}
     n = 0
     edges = 0
@@ -277,8 +312,8 @@ def _job(j):
         if st in seen:
             continue
         seen.add(st)
-        if len(hist) >= depth:
-            continue
+        if len(hist) >= depth or (first is None and depth > 1):
+            continue      # (the root job only evaluates the empty history; the subtrees are separate jobs)
         for nm in names:
             frontier.append(hist + [nm])
             edges += 1
@@ -295,7 +330,7 @@ def _job(j):
 def explore(tier, seed, props, light=False):
     depth = 2 if tier == 'quick' else 3
     cfgs = CONFIGS if tier != 'quick' else [CONFIGS[0], CONFIGS[3], CONFIGS[5], CONFIGS[6]]
-    jobs = [(c, depth, props) for c in cfgs]
+    jobs = [(c, depth, props, first) for c in cfgs for first in [None] + alphabet(c['family'])]
     k = seed % len(jobs)
     jobs = jobs[k:] + jobs[:k]
     tot = dict(histories=0, states=0, edges=0, violations=[])
